@@ -698,6 +698,12 @@ public:
       std::unique_ptr<T_CopyAndVerifyRangeEl[]> target =
         copy_and_verify_range_helper(str_len);
 
+      // for tainted_volatile, the helper reads the pointer again and a
+      // concurrent sandbox thread may have nulled it in the meantime
+      if (target == nullptr) {
+        return verifier(nullptr);
+      }
+
       // ensure the string has a trailing null
       target[str_len - 1] = '\0';
 
